@@ -82,6 +82,7 @@ struct Inner {
     pair_seq: HashMap<(SocketAddr, SocketAddr), u32>,
     next_dgram: u64,
     oversize: Vec<(Duration, SocketAddr, SocketAddr, usize)>,
+    logging: bool,
 }
 
 #[derive(Clone)]
@@ -101,8 +102,14 @@ impl SimNet {
                 pair_seq: HashMap::new(),
                 next_dgram: 0,
                 oversize: Vec::new(),
+                logging: true,
             })),
         }
+    }
+
+    /// Switch the wire log off (long end-to-end runs whose oracle only needs the API).
+    pub fn set_logging(&self, on: bool) {
+        self.inner.lock().unwrap().logging = on;
     }
 
     pub fn set_policy(&self, policy: Box<dyn Policy>) {
@@ -170,7 +177,9 @@ impl SimNet {
             Some(tx) => tx.send((bytes.clone(), from)).is_ok(),
             None => false,
         };
-        g.log.push(Ev { t, kind: if ok { EvKind::Deliver } else { EvKind::NoRoute }, from, to, bytes, dgram });
+        if g.logging {
+            g.log.push(Ev { t, kind: if ok { EvKind::Deliver } else { EvKind::NoRoute }, from, to, bytes, dgram });
+        }
     }
 
     /// Send through the policy. Returns Err if the policy injects a send failure.
@@ -193,11 +202,15 @@ impl SimNet {
             let fate = g.policy.fate(&Dgram { from, to, seq, bytes: data, now });
             match fate {
                 Fate::SendError => {
-                    g.log.push(Ev { t: now, kind: EvKind::SendFailed, from, to, bytes, dgram });
+                    if g.logging {
+                        g.log.push(Ev { t: now, kind: EvKind::SendFailed, from, to, bytes, dgram });
+                    }
                     return Err(io::Error::new(io::ErrorKind::Other, "simulated send failure"));
                 }
                 Fate::Deliver(delays) => {
-                    g.log.push(Ev { t: now, kind: EvKind::Send { copies: delays.len() as u8 }, from, to, bytes: bytes.clone(), dgram });
+                    if g.logging {
+                        g.log.push(Ev { t: now, kind: EvKind::Send { copies: delays.len() as u8 }, from, to, bytes: bytes.clone(), dgram });
+                    }
                     (dgram, delays)
                 }
             }
